@@ -216,11 +216,11 @@ def witness_cases():
 def gen_cases(ctx):
     rng = ctx.rng
     cases = []
-    for _ in range(ctx.scale(2000, 20000)):
+    for _ in range(ctx.scale(800, 4000)):
         cases.append(G.gen_graph_case(rng, "graph"))
-    for _ in range(ctx.scale(1500, 15000)):
+    for _ in range(ctx.scale(600, 3000)):
         cases.append(G.gen_graph_case(rng, "archive", archive=True))
-    for _ in range(ctx.scale(3000, 40000)):
+    for _ in range(ctx.scale(1200, 8000)):
         cases.append(G.gen_corrupt_case(rng))
     cases += edge_cases(ctx)
     cases += witness_cases()
@@ -319,6 +319,17 @@ def judge(case, ans):
                 cands.setdefault(f.name, []).append(f)
     placed = [(n, a) for n, a in d["sym_list"] if n not in labels]
     chosen = {}
+    # the room a placed function has: up to the next placed function / the end of the appended memory
+    app_end = None
+    if d.get("app", "-") not in ("-", None) and ":" in d["app"]:
+        a0, _, hx = d["app"].partition(":")
+        app_end = int(a0, 16) + (0 if hx == "-" else len(hx) // 2)
+    starts = sorted(a for _, a in placed)
+    room = {}
+    for n, a in placed:
+        later = [x for x in starts if x > a]
+        room[n] = (later[0] if later else (app_end if app_end is not None and app_end > a else None))
+        room[n] = None if room[n] is None else room[n] - a
     for n, a in placed:
         if n not in cands:
             out.append(("C20:unknown-symbol:" + case.kind, "only functions of the imports", "symbol %s is no function of any import" % n[:40]))
@@ -326,9 +337,11 @@ def judge(case, ans):
         if a % 4:
             out.append(("C20:unaligned:" + case.kind, "a multiple of 4", "%s placed at %#x: no jal can reach it" % (n[:40], a)))
         hit = None
-        for f in sorted(cands[n], key=lambda f: -f.size):      # duplicates: the longest definition that fits
+        for f in sorted(cands[n], key=lambda f: -f.size):      # duplicates: the definition that fills the room
             exp = expected_bytes(f, big, syms)
             if exp is None:
+                continue
+            if len(cands[n]) > 1 and room.get(n) is not None and ((f.size + 3) & ~3) != room[n]:
                 continue
             got = bytes(image.get((a + i) & 0xffffffff, 0) for i in range(len(exp)))
             present = all(((a + i) & 0xffffffff) in image for i in range(len(exp)))
@@ -402,6 +415,18 @@ def judge(case, ans):
 # correspondence
 # ---------------------------------------------------------------------------------------------------
 
+def run_retry(exe, lines, env):
+    """run_lines; a line whose process died (or was killed from outside: other jobs share the machine) is run again
+    alone, so that only a death that repeats is reported"""
+    ans = nvlib.run_lines(exe, lines, env=env, timeout=600)
+    again = [i for i, a in enumerate(ans) if a.startswith("DIED") or a == "MISSING"]
+    if again and len(again) <= 200:
+        redo = nvlib.run_lines(exe, [lines[i] for i in again], env=env, timeout=600, shards=min(8, len(again)))
+        for i, a in zip(again, redo):
+            ans[i] = a
+    return ans
+
+
 def correspondence(ctx, corr):
     cases = gen_cases(ctx)
     lines = [c.line() for c in cases]
@@ -410,8 +435,8 @@ def correspondence(ctx, corr):
     if os.path.exists(cp):
         corpus = [l.strip() for l in open(cp) if l.strip() and not l.startswith("#")]
     all_lines = corpus + lines
-    h = nvlib.run_lines(ctx.harness, all_lines, timeout=600)
-    m = nvlib.run_lines(ctx.driver, all_lines, env=dict(os.environ), timeout=600)
+    h = run_retry(ctx.harness, all_lines, None)
+    m = run_retry(ctx.driver, all_lines, dict(os.environ))
     ctx.notes["cases"], ctx.notes["impl"] = cases, h[len(corpus):]
     corr["cases"] += len(all_lines)
     kinds, stages = {}, {}
@@ -466,7 +491,7 @@ def oracle(ctx, orc, focus=None):
         cases, impl = ctx.notes["cases"], ctx.notes["impl"]
     else:
         cases = gen_cases(ctx)
-        impl = nvlib.run_lines(ctx.harness, [c.line() for c in cases], timeout=600)
+        impl = run_retry(ctx.harness, [c.line() for c in cases], None)
     stats = {"judged": 0, "ok": 0, "refused": 0, "expected_error": 0, "expected_ok": 0, "process_runs": 0}
     for c, ans in zip(cases, impl):
         orc["cases"] += 1
@@ -481,8 +506,8 @@ def oracle(ctx, orc, focus=None):
     # process level: main() of the real naken_asm gives the same verdict and the same image as the in-process run
     exe = ctx.repo["naken_asm"]
     tmp = ctx.tmpdir()
-    sample = [i for i, c in enumerate(cases) if c.kind in ("graph", "archive")][:ctx.scale(200, 1500)]
-    sample += [i for i, c in enumerate(cases) if c.kind == "corrupt"][:ctx.scale(200, 1500)]
+    sample = [i for i, c in enumerate(cases) if c.kind in ("graph", "archive")][:ctx.scale(80, 300)]
+    sample += [i for i, c in enumerate(cases) if c.kind == "corrupt"][:ctx.scale(80, 300)]
     # (not at the top of the address space: the listing's "data sections" loop does not end when the image reaches
     #  0xffffffff, with or without imports: outside this property)
     sample += [i for i, c in enumerate(cases) if c.kind.startswith("edge") and "many" not in c.kind and "long-callee" not in c.kind
